@@ -17,6 +17,7 @@ from . import env
 
 KNOWN_FILE = os.path.join(env.VERIF, "known_findings.json")
 NPROC = int(os.environ.get("VERIF_JOBS", "0")) or min(16, os.cpu_count() or 1)
+BUDGET_THOROUGH = 600.0  # seconds of wall clock per thorough check (VERIF_BUDGET_S overrides)
 
 
 class TaskResult(dict):
@@ -94,12 +95,28 @@ def run_check(mod, tier, seed):
     order = list(range(len(tasks)))
     rnd.shuffle(order)
     tasks = [tasks[i] for i in order]
+    nbase = 0
+    if tier == "thorough" and not only:
+        # the thorough tier contains the quick tier: its tasks run first and are never cut by the budget, the deeper
+        # ones follow (so a budgeted thorough run is never weaker than the quick run)
+        base = mod.plan("quick", seed)
+        if hasattr(mod, "plan"):
+            mod.plan(tier, seed)  # plans may keep tier-dependent module state (C19): leave it at the thorough setting
+        for t in base:
+            if isinstance(t, dict):
+                t["label"] = "q:" + str(t.get("label", "?"))
+        tasks = base + tasks
+        nbase = len(base)
     packed = [(mod.__name__, t) for t in tasks]
     results = []
+    skipped = 0
     if NPROC > 1 and len(packed) > 1:
         ctx = multiprocessing.get_context("fork")
         failfast = bool(os.environ.get("VERIF_FAILFAST"))  # evaluation aid (mutation sweeps): stop at the first new violation
         known0 = load_known() if failfast else None
+        # wall-clock budget of the thorough tier: tasks are taken in the (seeded) order until the budget is used up; what
+        # was not started is reported (capped run, never called exhaustive).  The quick tier has no budget.
+        budget = float(os.environ.get("VERIF_BUDGET_S", "0") or 0) or (BUDGET_THOROUGH if tier == "thorough" else 0)
         with ctx.Pool(min(NPROC, len(packed)), maxtasksperchild=1) as pool:
             for r in pool.imap_unordered(_run_task, packed, chunksize=1):
                 results.append(r)
@@ -107,12 +124,22 @@ def run_check(mod, tier, seed):
                                                         for v in r.get("violations", []))):
                     pool.terminate()
                     break
+                if budget and time.time() - t0 > budget and len(results) < len(packed) and \
+                        sum(1 for x in results if str(x.get("label", "")).startswith("q:")) >= nbase:
+                    pool.terminate()
+                    skipped = len(packed) - len(results)
+                    break
     else:
         for p in packed:
             results.append(_run_task(p))
     results.sort(key=lambda r: r["label"])
     agg = new_result()
     agg["tasks"] = len(results)
+    if skipped:
+        agg["capped"] = True
+        agg["notes"].append("wall-clock budget reached: %d of %d tasks were not completed (the tasks run were explored "
+                            "completely unless marked capped themselves)" % (skipped, len(packed)))
+        agg["extra"]["tasks_not_completed"] = skipped
     samples = []
     for r in results:
         for k in ("states", "transitions", "evaluations", "nontrivial"):
